@@ -217,6 +217,136 @@ let rec handle (pl : string) : string =
         | CDropped -> Printf.sprintf "%s;handled=0;buf=%s;spec=0;class=sac:dropped" head (buf_s (buf_of old))
         | COob -> head ^ ";handled=OOB" | CFuel -> head ^ ";handled=FUEL")
      | _ -> "complete=?")
+  | ["hist"; proto; pool; script] ->
+    let pool = Array.of_list (List.map bytes_of_hex (String.split_on_char '/' pool)) in
+    let toks = String.split_on_char ',' script in
+    let h = ref 2166136261 in
+    let fnv_byte b = h := ((!h lxor b) * 16777619) land 0xffffffff in
+    let fnv_bytes l = List.iter (fun x -> fnv_byte (int_of_n x)) l in
+    let fnv_string s = String.iter (fun c -> fnv_byte (Char.code c)) s in
+    let slots = (match proto with
+      | "sn" -> [|0; 1; 6; 7|] | "sa" | "es" -> [|0; 1; 254; 255|] | "pp" -> [|0; 1; 126; 127|]
+      | "an" -> [|0; 1; 14; 15|] | _ -> [|1; 2; 63999; 65534|]) in
+    let bufs = Array.make 4 None in
+    let rxst = Array.init 4 (fun _ -> { rx_src = None; rx_active = N0; rx_buf = None }) in
+    let seq = ref 0 and name = ref [] in
+    let names = Hashtbl.create 4 in
+    let m = ref [] in
+    let cid = List.map n_of_int [1;2;3;4;5;6;7;8;9;10;11;12;13;14;15;16] in
+    let str s = List.init (String.length s) (fun i -> n_of_int (Char.code s.[i])) in
+    let trace = Buffer.create 64 in
+    let sends = ref 0 and delivered = ref 0 and bad = ref "" in
+    let is_prefix f b = (match b with
+      | None -> false
+      | Some l -> let rec go a b = (match a, b with [], _ -> true | x :: a', y :: b' -> x = y && go a' b' | _ -> false) in go f l) in
+    List.iter (fun tk ->
+      if String.length tk >= 2 then begin
+        let slot = Char.code tk.[1] - 48 in
+        let k = if String.length tk > 2 then ios (String.sub tk 2 (String.length tk - 2)) else 0 in
+        if slot >= 0 && slot <= 3 then
+        match tk.[0] with
+        | 'n' ->
+          let nm = str ("nm" ^ string_of_int k) in
+          if proto = "e1" || proto = "e2" then begin
+            Hashtbl.replace names slots.(slot) nm; m := tx_touch (n_of_int slots.(slot)) !m end
+          else name := nm
+        | 'x' -> if proto = "e1" || proto = "e2" then m := tx_touch (n_of_int slots.(slot)) !m
+        | 's' when k < Array.length pool ->
+          let f = pool.(k) in
+          let u = slots.(slot) in
+          incr sends;
+          (* the datagram *)
+          let pkt = (match proto with
+            | "sn" -> let p = shownet_build (List.map n_of_int [10;0;0;1]) !name (n_of_int !seq) (n_of_int u) f in
+                      seq := (!seq + 1) land 65535; p
+            | "sa" -> Some (sandnet_build (n_of_int 1) (n_of_int u) N0 f)
+            | "es" -> Some (espnet_build (n_of_int u) f)
+            | "pp" -> Some (pathport_build (n_of_int 77) (n_of_int 1) (n_of_int u) f)
+            | "an" -> let p = artnet_build (n_of_int !seq) N0 (n_of_int (48 + u)) (n_of_int 5) f in
+                      (match p with Some _ -> seq := (!seq + 1) land 255 | None -> ()); p
+            | _ -> let nm = (try Hashtbl.find names u with Not_found -> str "hist") in
+                   let (p, m') = tx_send_map (proto = "e2") cid nm (n_of_int 100) !m (n_of_int u) f in
+                   m := m'; p) in
+          (match pkt with
+           | None -> Buffer.add_char trace '-'
+           | Some p ->
+             fnv_bytes p;
+             let ok = ref true in
+             for z = 0 to 3 do
+               let hz = slots.(z) in
+               let ran = (match proto with
+                 | "sn" -> (match shownet_handle p (n_of_int hz) bufs.(z) with
+                            | RHandled b -> bufs.(z) <- b; true | RDropped -> false | _ -> bad := "OOB"; false)
+                 | "sa" -> (match sandnet_handle p (n_of_int 1) (n_of_int hz) bufs.(z) with
+                            | RHandled b -> bufs.(z) <- b; true | RDropped -> false | _ -> bad := "OOB"; false)
+                 | "es" -> (match espnet_handle p (n_of_int hz) bufs.(z) with
+                            | RHandled b -> bufs.(z) <- b; true | RDropped -> false | _ -> bad := "OOB"; false)
+                 | "pp" -> (match pathport_handle p (n_of_int 78) (n_of_int hz) bufs.(z) with
+                            | RHandled b -> bufs.(z) <- b; true | RDropped -> false | _ -> bad := "OOB"; false)
+                 | "an" -> (match artnet_handle p (n_of_int 5) (n_of_int (48 + hz)) bufs.(z) with
+                            | R2 (RHandled b) -> bufs.(z) <- b; true | R2 RDropped -> false | _ -> bad := "OOB"; false)
+                 | _ -> (match e131_rx p (n_of_int hz) true rxst.(z) with
+                         | SOk (st', ran) -> rxst.(z) <- st'; bufs.(z) <- st'.rx_buf; ran
+                         | _ -> bad := "UNMODELLED"; false)) in
+               if (z = slot) <> ran then ok := false
+             done;
+             let e = if proto = "an" && List.length f land 1 = 1 then f @ [N0] else f in
+             let partial = proto = "sn" || proto = "pp" in
+             if partial then (if not (is_prefix e bufs.(slot)) then ok := false)
+             else if bufs.(slot) <> Some e then ok := false;
+             fnv_string (buf_s bufs.(slot));
+             if !ok then incr delivered;
+             Buffer.add_char trace (if !ok then '1' else '0'))
+        | _ -> ()
+      end) toks;
+    if !bad <> "" then "t=" ^ !bad ^ ";class=hist:" ^ !bad
+    else Printf.sprintf "t=%s;h=%08x;delivered=%d;spec=%s;class=hist:%s" (Buffer.contents trace) !h !delivered
+           (bool01 (!delivered = !sends)) proto
+  | ["anm"; ltp; pool; script] ->
+    let pool = Array.of_list (List.map bytes_of_hex (String.split_on_char '/' pool)) in
+    let toks = String.split_on_char ',' script in
+    let h = ref 2166136261 in
+    let fnv_string s = String.iter (fun c -> h := ((!h lxor Char.code c) * 16777619) land 0xffffffff) s in
+    let slots = ref (None, None) and buf = ref None in
+    let now = ref 0 and last = [| -1; -1; -1 |] in
+    let seqs = [| 0; 0; 0 |] in
+    let trace = Buffer.create 64 in
+    let sole = ref 0 and sole_ok = ref 0 in
+    List.iter (fun tk ->
+      if String.length tk >= 2 then begin
+        let k = ios (String.sub tk 1 (String.length tk - 1)) in
+        if tk.[0] = 'w' then now := !now + k
+        else begin
+          let who = Char.code tk.[0] - 97 in
+          if who >= 0 && who <= 2 && k < Array.length pool then begin
+            let f = pool.(k) in
+            match artnet_build (n_of_int seqs.(who)) N0 (n_of_int 0x23) (n_of_int 1) f with
+            | None -> Buffer.add_char trace '-'
+            | Some p ->
+              seqs.(who) <- (seqs.(who) + 1) land 255;
+              (* the datagram is parsed as by a fresh single-source port; the frame then goes through the slots *)
+              let d = (match artnet_handle p (n_of_int 1) (n_of_int 0x23) None with
+                | R2 (RHandled (Some d)) -> Some d | _ -> None) in
+              let ran = (match d with
+                | None -> false
+                | Some d ->
+                  let (s', merged) = an_update (ltp = "1") !slots (n_of_int (who + 2)) (n_of_int !now) d in
+                  slots := s';
+                  (match merged with Some m -> buf := Some m; true | None -> false)) in
+              let alone = ref true in
+              for z = 0 to 2 do
+                if z <> who && last.(z) >= 0 && not (last.(z) + 10 < !now) then alone := false
+              done;
+              last.(who) <- !now;
+              let exact = ran && !buf = expect_artnet f in
+              if !alone then begin incr sole; if exact then incr sole_ok end;
+              fnv_string ((if ran then "1:" else "0:") ^ buf_s !buf);
+              Buffer.add_char trace (if exact then (if !alone then '1' else 'e') else (if !alone then '0' else 'm'))
+          end
+        end
+      end) toks;
+    Printf.sprintf "t=%s;h=%08x;sole=%d;spec=%s;class=anm:%s" (Buffer.contents trace) !h !sole_ok
+      (bool01 (!sole_ok = !sole)) (if ltp = "1" then "ltp" else "htp")
   | ["enc"; cap; fr] ->
     let f = bytes_of_hex fr in
     let cls = frame_class (List.map int_of_n f) in
